@@ -6,8 +6,9 @@ M-Net `Authn` — executable model of `net/http/authn/authn.go` (`API.Authentica
 Go                                   model
 -----------------------------------  ------------------------------------------------------
 `CredentialStore.DB` (id → json)     `State.tokens : List (Bytes × Bytes)` (id → secret)
-`API.tokenMap[user+pw]`              `State.cache : List (Bytes × Nat)`, key = `user ++ pw`
-                                     EXACTLY as the code builds it (no separator)
+`API.tokenMap[user+":"+pw]`          `State.cache : List (Bytes × Nat)`, key = `user ++ ':' :: pw`
+                                     exactly as the code builds it (separator since ed51f8ca;
+                                     before, `user+pw`: finding F22)
 `time.Now()`                         `State.now : Nat` (seconds; explicit clock)
 `tokenExpiry`                        `tokenExpiry = 300`
 `req.RemoteAddr`                     `Origin` class; local ⇔ host parses as a loopback IP
@@ -27,7 +28,7 @@ def loopbackOn : Bool := true
 
 /-! source facts the model relies on — the shape of the Go functions as the model mirrors
    them; each is tied to the regenerated `Gen/Authn.lean` by `Ties/C36.lean` -/
-def cacheKeyExpr : String := "user + pw"
+def cacheKeyExpr : String := "user + \":\" + pw"
 def staleCond : String := "!ok || time.Now().After(res.lastLookup.Add(tokenExpiry))"
 def cachedCheckChain : List String :=
   ["if !ok || time.Now().After(res.lastLookup.Add(tokenExpiry)) => -", "return nil"]
@@ -146,7 +147,7 @@ def parseBasic (auth : Option Bytes) : Option (Bytes × Bytes) :=
 
 /-- `cachedTokenAuthnCheck`: returns the new state and whether the error is nil -/
 def cachedCheck (s : State) (user pw : Bytes) : State × Bool :=
-  let key := user ++ pw
+  let key := user ++ 58 :: pw
   let stale := match mget s.cache key with
     | none => true
     | some last => decide (s.now > last + tokenExpiry)
